@@ -568,50 +568,57 @@ func runC04(c *Ctx) {
 		c.Fail("C04.R7", "pattern check", match.Pos(), "no such check")
 	}
 
-	// ---------- R8 complete membership scans ----------
+	// ---------- R8 $client membership ----------
+	// containsAny(host, ip) is "host is one of the names, or some subnet contains ip": stated over the
+	// canonical search form, so that a loop, a helper and slices.ContainsFunc are the same thing
 	if ca := c.P.Method("rules", "clients", "containsAny"); ca == nil {
 		c.Fail("C04.R8", "anchor:clients.containsAny", 0, "unresolved anchor")
 	} else {
 		c.Fn(FuncName(ca))
 		g := NewGate(c.P)
 		g.Inline = inlineOnly()
+		g.Search = true
 		s := g.Eval(ca)
 		u := g.U
+		ps := g.ParamExprs(ca)
+		cl, host, ip := ps[0], ps[1], ps[2]
+		H := u.ToBool(g.RetExpr(s, 0))
+		cNil := u.ToBool(u.Eq(cl, u.mk("nil", "", nil)))
+		hostEmpty := u.ToBool(u.Eq(host, u.Str("")))
+		var m1, m2, ipZero Ref = False, False, False
+		for _, at := range u.AtomsOf(H) {
+			switch {
+			case at.Op == "extract" && at.Aux == "1" && at.Args[0].Op == "call" && strings.HasPrefix(at.Args[0].Aux, "slices.BinarySearch") && len(at.Args[0].Args) >= 2 &&
+				at.Args[0].Args[0].Op == "field" && at.Args[0].Args[0].Args[0] == cl && at.Args[0].Args[1] == host:
+				m1 = u.Atom(at)
+			case at.Op == "exists" && at.Args[0].Op == "field" && at.Args[0].Args[0] == cl:
+				pr := u.ToBool(at.Args[1])
+				pats := u.AtomsOf(pr)
+				if len(pats) == 1 && pr == u.Atom(pats[0]) && pats[0].Op == "call" && strings.HasSuffix(pats[0].Aux, "netip.Prefix).Contains") && pats[0].Args[0].Op == "bvar" && pats[0].Args[1] == ip {
+					m2 = u.Atom(at)
+				}
+			case at.Op == "call" && strings.HasPrefix(at.Aux, "slices.Contains") && len(at.Args) == 2 && at.Args[0].Op == "field" && at.Args[0].Args[0] == cl && at.Args[1] == host:
+				m1 = u.Atom(at)
+			case at.Op == "eq" && (at.Args[0] == ip || at.Args[1] == ip):
+				ipZero = u.bdd.Or(ipZero, u.Atom(at))
+			case at.Op == "call" && strings.HasSuffix(at.Aux, "netip.Addr).IsValid") && at.Args[0] == ip:
+				ipZero = u.bdd.Or(ipZero, u.bdd.Not(u.Atom(at)))
+			}
+		}
 		bad := ""
-		n := 0
-		for _, l := range loopsOf(ca) {
-			n++
-			ro := rangedOver(l)
-			if ro == nil || !ro.Full {
-				bad = "a membership loop is not a complete range"
-				continue
-			}
-			body := u.bdd.And(s.RC[l.Header], contCond(u, s, l))
-			for _, ex := range l.Exits {
-				if ex[0] == l.Header {
-					continue
-				}
-				ec := edgeCondOf(u, s, ex[0], ex[1])
-				// must be a hit: leads to return true, under Contains(elem, ip)
-				hit := false
-				for _, r := range s.Rets {
-					if r.Cond == ec && r.Vals[0].Op == "bool" && r.Vals[0].B == True {
-						for _, at := range u.AtomsOf(ec) {
-							if at.Op == "call" && strings.HasSuffix(at.Aux, "netip.Prefix).Contains") && ec == u.bdd.And(body, u.Atom(at)) {
-								hit = true
-							}
-						}
-					}
-				}
-				if !hit {
-					bad = "the scan over the client subnets can stop before the end without a hit (" + clip(u.ShowBool(ec), 160) + "): an entry later in the list is never examined, e.g. an IPv6 subnet after an IPv4 one"
-				}
-			}
+		switch {
+		case m1 == False:
+			bad = "the client name is never looked up in the set's names"
+		case m2 == False:
+			bad = "the client address is never tested against every subnet of the set (no complete scan of the subnets with Contains)"
+		case !u.bdd.Implies(u.bdd.And(u.bdd.And(u.bdd.Not(cNil), u.bdd.Not(hostEmpty)), m1), H):
+			bad = "a listed client name is not always reported as contained"
+		case !u.bdd.Implies(u.bdd.And(u.bdd.And(u.bdd.Not(cNil), u.bdd.Not(ipZero)), m2), H):
+			bad = "an address inside one of the subnets is not always reported as contained: " + clip(u.ShowBool(u.bdd.And(u.bdd.And(u.bdd.And(u.bdd.Not(cNil), u.bdd.Not(ipZero)), m2), u.bdd.Not(H))), 200) + " (e.g. a request with an unknown client name and a listed address against $client=name|subnet)"
+		case !u.bdd.Implies(H, u.bdd.And(u.bdd.Not(cNil), u.bdd.Or(u.bdd.And(m1, u.bdd.Not(hostEmpty)), m2))):
+			bad = "a client can be reported as contained although neither its name is listed nor a subnet contains its address"
 		}
-		if n == 0 {
-			bad = "UNDECIDED: no membership loop"
-		}
-		c.Check(bad == "", "C04.R8", shortFn(ca)+": subnet scan is complete; leaves early only on a hit", ca.Pos(), fmt.Sprintf("%d loop(s)", n), bad)
+		c.Check(bad == "", "C04.R8", shortFn(ca)+": contained iff the name is listed or some subnet contains the address", ca.Pos(), "decision function over the canonical search form", bad)
 	}
 }
 
